@@ -563,7 +563,18 @@ func main() {
 							}
 						}
 					case 'C':
+						ownBefore := ""
+						for _, nm := range bkt.Names() {
+							if strings.Contains(nm, "__s__") {
+								ownBefore = nm // newest own snapshot (names sort chronologically)
+							}
+						}
 						_ = me.S.VerifCleaner().RunOnce(context.Background(), now)
+						if _, ok := bkt.Get(ownBefore); ownBefore != "" && !ok {
+							r.Violate(p.Name, "own-newest-snapshot-deleted-by-own-cleaner",
+								fmt.Sprintf("native=%v sequence %s: after step %d the cleaner of instance s deleted %s, the newest snapshot of s itself (nothing newer of s exists)", native, seq, si+1, ownBefore),
+								map[string]any{"native": native, "sequence": string(seq)})
+						}
 						if _, ok := bkt.Get(cname); !ok && !republished {
 							r.Violate(p.Name, "stale-snapshot-deleted-before-merged-and-republished",
 								fmt.Sprintf("native=%v sequence %s: after step %d the only snapshot of silent instance c is deleted (merged=%v, own snapshot uploaded after the merge=%v)", native, seq, si+1, merged, republished),
